@@ -75,7 +75,7 @@ async def sk_placeholder_destination(hp, w, rnd, ctx):
     await w.op_create(a, "ph/child")
     for i in range(3):
         await w.op_append(a, "INBOX", flags=rnd.choice([None, ["\\Seen"]]))
-        await w.op_append(a, "ph")
+        await w.op_append(a, "ph", flags=[["\\Deleted"], ["\\Deleted", "\\Flagged"], ["kw1"]][i])
     await w.op_delete(a, "ph")  # keeps a placeholder because of ph/child
     await w.observe()
     await w.op_select(a, "INBOX")
@@ -87,6 +87,18 @@ async def sk_placeholder_destination(hp, w, rnd, ctx):
     await w.op_copy(a, us[:2], "ph", uid_mode=True, move=True)
     await w.observe()
     await w.op_append(a, "ph")
+    await w.observe()
+    # the placeholder is created again: it is a new, empty mailbox -- what is put
+    # in to it does not inherit anything from the messages that were deleted with it
+    await w.op_create(a, "ph")
+    w.no_probe = True
+    try:
+        await w.op_append(a, "ph", flags=["\\Seen"])
+        await w.op_append(a, "ph")
+        await w.op_select(a, "ph")
+        await w.op_expunge(a)
+    finally:
+        w.no_probe = False
     await w.observe()
 
 
